@@ -45,6 +45,15 @@ fn text_pool(me: &str, x: &str, y: &str, variant: usize, long: bool) -> Vec<Stri
     format!("/** doc comment {l} that is long enough to be heap allocated */\nclass Doc{l} {{\n  // line comment {l} also long enough to be heap allocated\n  function s{l}(): Str = \"a string literal {l} long enough to be heap allocated\"\n}}\n"),
     // 14: empty file
     String::new(),
+    // 16/17: a class whose fields and methods carry doc comments (several, so that comment indices are
+    // large), and a comment-free consumer in another module that reads those fields and calls those
+    // methods: hover / definition / references on the member names cross module (and comment-store) boundaries
+    format!(
+      "/** one {l} */\n/** two {l} */\nclass Doc{me}{l}(\n  /** the first documented field {l} */\n  val docFieldOne{l}: int,\n  /** the second documented field {l} */\n  val docFieldTwo{l}: Str\n) {{\n  /** a documented function {l} */\n  function mk{l}(): Doc{me}{l} = Doc{me}{l}.init(1, \"two\")\n  /** a documented method {l} */\n  method sum{l}(): int = this.docFieldOne{l}\n}}\n"
+    ),
+    format!(
+      "import {{ Doc{x}{l} }} from {x}\nclass UseDoc{l} {{\n  function read{l}(): int = Doc{x}{l}.mk{l}().docFieldOne{l} + Doc{x}{l}.mk{l}().sum{l}()\n  function text{l}(d{l}: Doc{x}{l}): Str = d{l}.docFieldTwo{l}\n}}\n"
+    ),
     // 15: a long identifier at every site class an identifier, comment or literal can occur
     // (the GC must keep all of them alive: formatting and hovering read them back)
     format!(
